@@ -28,8 +28,8 @@ def model_build(d, src: bytes, file: str, tree):
     r = d.call("scan-model", file, src.hex(), *flat_tree(tree))
     if r[0] != "ok":
         return dict(outcome=r[0], msg=r[1] if len(r) > 1 else "")
-    n_ins, n = int(r[1]), int(r[2])
-    ents, i = [], 3
+    n_ins, n, ops = int(r[1]), int(r[2]), int(r[3])
+    ents, i = [], 4
     for _ in range(n):
         kind, line, sb, eb, pre = r[i:i + 5]
         ents.append(dict(kind=kind, line=int(line), sb=int(sb), eb=int(eb), pre=bytes.fromhex(pre)))
@@ -39,7 +39,7 @@ def model_build(d, src: bytes, file: str, tree):
     for _ in range(ne):
         edges.append((bytes.fromhex(r[i]), bytes.fromhex(r[i + 1])))
         i += 2
-    return dict(outcome="ok", inserted=n_ins, ents=ents, edges=edges)
+    return dict(outcome="ok", inserted=n_ins, ents=ents, edges=edges, ops=ops)
 
 
 def sha(b):
@@ -92,4 +92,6 @@ def compare(real, model, src: bytes, file: str):
     me = sorted((sha(a), sha(b)) for a, b in model["edges"])
     if re_ != me:
         mism.append("call links differ: real %d model %d" % (len(re_), len(me)))
-    return mism, dict(real_nodes=len(rn), model_nodes=len(mn), inserted=model["inserted"], edges=len(re_))
+    if real.get("ops") is not None and real["ops"] != model.get("ops"):
+        mism.append("operation count of the declaration x invocation pass differs: hook %s, model %s" % (real["ops"], model.get("ops")))
+    return mism, dict(real_nodes=len(rn), model_nodes=len(mn), inserted=model["inserted"], edges=len(re_), ops=real.get("ops"))
